@@ -945,6 +945,8 @@ def run(ctx):
     rec = r2(ctx)
     r3(ctx, rec)
     r4(ctx)
+    # R6 BUILD-PARITY: the from-scratch routine and the editing producers do the same with and without debug assertions
+    debug_parity(ctx, 'C03.R6', [UPI, 'board::Board::set_piece', 'board::Board::clear_square', 'board::Board::null_move'])
     # R5 GEOMETRY (= C16.R1/R2): rays, between, knight and pawn attack tables the scans and direct checks read
     tables_dep(ctx, 'C03.R5', ['board::Board::make_move', 'board::Board::make_move_new', UPI],
                only=('magic::between', 'magic::get_bishop_rays', 'magic::get_rook_rays', 'magic::get_knight_moves', 'magic::get_pawn_attacks'))
